@@ -14,7 +14,7 @@ LEVEL = "exploration"
 TECHNIQUE = "deterministic simulation with message-level fault injection: a seeded mangler around each side's events() (duplicate, hold back, permute, strip path, inject walks / id-less events), outcome compared with a reference model"
 RULE = ("each run = flavour pair, an eagerly synchronised preamble, then a one-sided history (1-7 ops; the outcome of a one-sided history is determined by the model alone, so no second run is needed as "
         "reference) under schedule style batched|bursty|split, with BOTH sides' event feeds mangled by a seeded mangler: every event may be delivered 1-3 times, held back and released at a later intake, "
-        "permuted within the batch together with held ones (only on sides whose ids are stable), have its path blanked (id-stable sides), and at scheduled points a full walk of the root is queued as "
+        "permuted within the batch together with held ones (only on sides whose ids are stable), have its path blanked (any side; not the rename events of path-id sides, whose path is the id), the whole batch may be delivered twice in a row, and at scheduled points a full walk of the root is queued as "
         "walk events or an event without id is queued. All held events are released before the epilogue. Oracles at quiet: peer == origin == model exactly, no .conflicted; engine writes after quiet = 0 "
         "(redundant create/upload of bytes the destination already held is counted as a probe, compared with the unmangled run, but not judged: see DESIGN, false alarms). distinct = (history shape, schedule, flavour, multiset of manglings that "
         "actually fired); non-trivial = >=1 mangling fired and >=1 engine write.")
@@ -64,11 +64,14 @@ class Mangler:
         if self.id_stable and len(out) > 1 and rng.random() < self.r.get("permute", 0):
             rng.shuffle(out)
             self.fired["permute"] = self.fired.get("permute", 0) + 1
-        if self.id_stable:
-            for i, e in enumerate(out):
-                if e.path and rng.random() < self.r.get("nopath", 0):
-                    out[i] = dataclasses.replace(e, path=None)
-                    self.fired["nopath"] = self.fired.get("nopath", 0) + 1
+        for i, e in enumerate(out):
+            # (a rename event of a path-id provider cannot lose its path: the path IS the new id)
+            if e.path and not e.prior_oid and rng.random() < self.r.get("nopath", 0):
+                out[i] = dataclasses.replace(e, path=None)
+                self.fired["nopath"] = self.fired.get("nopath", 0) + 1
+        if out and rng.random() < self.r.get("replay", 0):
+            out = out + list(out)           # the whole batch is delivered again
+            self.fired["replay"] = self.fired.get("replay", 0) + 1
         return out
 
 
@@ -227,7 +230,7 @@ def generate(rng, tier, index):
     flav = rng.choice(ALL_FLAVOURS)
     style = weighted(rng, (("batched", 4), ("bursty", 2), ("split", 4)))
     origin = rng.randrange(2)
-    rates = {k: (rng.choice([0.1, 0.3, 0.6]) if rng.random() < 0.6 else 0.0) for k in ("dup", "hold", "permute", "nopath")}
+    rates = {k: (rng.choice([0.1, 0.3, 0.6]) if rng.random() < 0.6 else 0.0) for k in ("dup", "hold", "permute", "nopath", "replay")}
     case = {"prop": ID, "cfg": {"flavour": flav}, "style": style, "family": style, "origin": origin, "mangle_seed": rng.randrange(1 << 30), "rates": rates}
     mix = random_mix(rng)
 
